@@ -284,3 +284,11 @@ def frac(x):
             return INF
         return Fraction(repr(x))
     return x
+
+
+class NpInt(int):
+    """A numpy integer scalar (np.int64, e.g. the result of np.argmax): an integer for arithmetic and indexing, but
+    NOT an instance of Python's int (isinstance(x, int) is False natively)."""
+
+    def __repr__(self):
+        return f"np.int64({int(self)})"
